@@ -108,7 +108,7 @@ theorem get?_assign (d : Dict) (l : Assignments) (k : Key) :
     obtain ⟨k', v⟩ := p
     have : assign d ((k', v) :: r) = assign (d.set k' v) r := rfl
     rw [this, ih, Dict.get?_set, lastVal]
-    by_cases h : k' = k <;> simp [h, Option.or_assoc]
+    by_cases h : k' = k <;> simp [h]
 
 theorem get?_assign_nil (l : Assignments) (k : Key) : (assign [] l).get? k = lastVal l k := by
   rw [get?_assign]; simp [Dict.get?]
@@ -125,7 +125,7 @@ theorem dropLast_append_of_getLast? : ∀ (l : List String) (a : String), l.getL
   | [x], a, h => by simp at h; simp [h]
   | x :: y :: r, a, h => by
     have := dropLast_append_of_getLast? (y :: r) a (by simpa [List.getLast?_cons_cons] using h)
-    simp only [List.dropLast_cons₂, List.cons_append, this]
+    simp only [List.dropLast_cons_cons, List.cons_append, this]
 
 theorem Key.eq_of_endsWith_dropLast {k : Key} {obj : String} {t : Key}
     (h : k.endsWith obj = true) (hd : k.dropLast = t) : k = ⟨t.stem, t.quals ++ [obj]⟩ := by
